@@ -17,4 +17,22 @@ open Afkak.Monitor.C06
 def C06_bootstrap_no_crosstalk : Prop :=
   ∀ evs : List Afkak.Bootstrap.Ev, bootAccepts true (Afkak.Bootstrap.trace Afkak.Bootstrap.St.init evs) = true
 
+/-- Re-entrant callbacks (`Afkak/BrokerClientR.lean`): whatever the callbacks attached to request
+    Deferreds do when they fire (`close`, `disconnect`, cancel another request, make a new one), every
+    Deferred fires only after it was handed out and at most once, `ok b` only with a packet carrying
+    its id, and every Deferred unfired when a `close()` goes ahead has fired when that call is over.
+    NOT proved (the theorems of `AfkakProps/C06.lean` are about the flat model, i.e. callbacks that do
+    not re-enter); evaluated on every model trace and every implementation trace of every run. -/
+def C06_reentrant : Prop :=
+  ∀ (cfg : Afkak.BrokerClient.Cfg) (host port : Nat) (evs : List Afkak.BrokerClientR.EvR),
+    r06 (Afkak.BrokerClientR.traceR cfg (Afkak.BrokerClientR.StR.init host port) evs) = true
+
+/-- The re-entrant model is the flat model when no callback is registered: same observations (markers
+    dropped), same state.  NOT proved; checked by the driver on every scenario (`flat-mismatch`). -/
+def C06_flat_model_is_reentrant_model_without_hooks : Prop :=
+  ∀ (cfg : Afkak.BrokerClient.Cfg) (host port : Nat) (evs : List Afkak.BrokerClient.Ev),
+    (Afkak.BrokerClientR.traceR cfg (Afkak.BrokerClientR.StR.init host port) (evs.map .flat)).map
+        (fun t => Afkak.BrokerClientR.plain t.2)
+      = (Afkak.BrokerClient.trace cfg (Afkak.BrokerClient.St.init host port) evs).map (·.2)
+
 end Afkak.Props.C06.Open
